@@ -317,6 +317,7 @@ def float_replay(m, adv, item, termination_only=False):
         rng = np.random.RandomState(9)
         f = rng.rand(len(qpf), len(rpf)) + 0.5
         fin = f.copy()
+        timed_out = False
         try:
             with H.cpu_limit(FLOAT_STEP_CPU_S):
                 for pdt in pre_dts:
@@ -324,8 +325,8 @@ def float_replay(m, adv, item, termination_only=False):
                     pa.step(g, float(pdt), phi, 0.5)
                 pa.step(f, float(dt), phi, 0.5)
         except H.CpuTimeout:
-            return NONTERMINATION + ' (%d x %d nodes, tolerance %g; the stated iteration ends within 200 passes on this input)' % (len(qpf), len(rpf), tolf)
-        if termination_only:
+            timed_out = True          # reported below only if the stated iteration itself ends on this input
+        if termination_only and not timed_out:
             return None
         # reference
         it = m['si'].SplineInterpolator2D(qs, rs)
@@ -335,7 +336,7 @@ def float_replay(m, adv, item, termination_only=False):
         worst = 0.0
         rmin, rmax = rpf[0], rpf[-1]
         impl_feet = None
-        if scheme.startswith('impl@'):
+        if scheme.startswith('impl'):
             # reference feet: the same stated iteration in floats
             cur = {}
             d0 = {}
@@ -365,6 +366,12 @@ def float_replay(m, adv, item, termination_only=False):
                     break
             impl_feet = cur
             REF_SWEEPS[0] = it + 1
+            converged = norm <= tolf
+        if timed_out:
+            if impl_feet is not None and not converged:
+                return None          # the stated iteration does not settle on this input either (outside its contraction regime)
+            return NONTERMINATION + ' (%d x %d nodes, tolerance %g; an independent float implementation of the stated iteration ends after %d sweeps on this input)' % (
+                len(qpf), len(rpf), tolf, REF_SWEEPS[0])
         for i, q in enumerate(qpf):
             for j, r in enumerate(rpf):
                 if impl_feet is not None:
@@ -458,6 +465,16 @@ def main():
         for w in (Fr(2), Fr(-9, 2)):
             for scheme in ('expl', 'impl'):
                 items.append(('cu', 3, 3, 5, 3, 'rot', w, Fr(1), scheme, False, None))
+    if not quick:
+        # mixed degrees, both spline paths, either sign of dt, both boundary modes, theta- and r-dependent potentials
+        for (pth, qd, rd, nq_, nc_) in (('nu', 2, 3, 4, 2), ('nu', 3, 2, 5, 3), ('nu', 4, 3, 5, 2), ('cu', 3, 3, 6, 2)):
+            for dt_ in (Fr(1, 4), Fr(-1, 4), Fr(3, 2), Fr(-3, 2)):
+                items.append((pth, qd, rd, nq_, nc_, 'generic', Fr(1), dt_, 'expl', dt_ > 0, None))
+            items.append((pth, qd, rd, nq_, nc_, 'wave', Fr(2), Fr(2), 'expl', False, None, (Fr(-1, 2),)))
+            items.append((pth, qd, rd, nq_, nc_, 'generic', Fr(1, 2), Fr(1, 8), 'impl@1/2', True, None))
+        for (pth, qd, rd) in (('cu', 3, 3),):          # (on the general path this potential is outside the contraction regime of the iteration)
+            for dt_ in (Fr(3, 4), Fr(-3, 4), Fr(1, 2)):
+                items.append((pth, qd, rd, 8, 6, 'strong', Fr(3), dt_, 'impl@1/10000000000000', dt_ < 0, None))
     for cn in CANARIES:
         items.append(cn[3] + (cn[:3],))
     caught = {}
